@@ -248,6 +248,36 @@ Theorem canonicalize_is_nearest :
     canonicalize F f0 is_psd repair p r = nearest F f0 is_psd repair p r.
 Proof. exact canonicalize_is_nearest_lemma. Qed.
 
+(* Model.create / Model.replace: whichever of 'parameters' / 'random_variables' is replaced (both, one,
+   none), the resulting initial estimates are the canonicalised pair ... *)
+Theorem replace_canonicalised :
+  forall (F : Type) (f0 : F) (is_psd : list (list F) -> bool) (repair : list (list F) -> list (list F))
+         (p_old : params F) (r_old : coll id) (p_new : option (params F)) (r_new : option (coll id)),
+    model_replace F f0 is_psd repair p_old r_old p_new r_new =
+    (canonicalize F f0 is_psd repair (match p_new with Some q => q | None => p_old end)
+                                     (match r_new with Some q => q | None => r_old end),
+     match r_new with Some q => q | None => r_old end).
+Proof. exact model_replace_canonicalised_lemma. Qed.
+
+(* ... and they pass validate_parameters with the resulting random variables ("every model has initial
+   estimates for which each covariance block is positive semidefinite"), GIVEN what the LAPACK-based
+   oracles promise ([repair_ok]: the repaired matrix passes the PSD test, is symmetric along the symbol
+   symmetry of the block and of the right size; blocks sharing symbols receive one value per symbol) *)
+Theorem canonicalize_valid :
+  forall (F : Type) (f0 : F) (is_psd : list (list F) -> bool) (repair : list (list F) -> list (list F))
+         (p : params F) (r : coll id) (w : id -> F),
+    repair_ok F f0 is_psd repair p r w -> validate F f0 is_psd (canonicalize F f0 is_psd repair p r) r = true.
+Proof. exact canonicalize_valid_lemma. Qed.
+
+Theorem replace_valid :
+  forall (F : Type) (f0 : F) (is_psd : list (list F) -> bool) (repair : list (list F) -> list (list F))
+         (p_old : params F) (r_old : coll id) (p_new : option (params F)) (r_new : option (coll id)) (w : id -> F),
+    repair_ok F f0 is_psd repair (match p_new with Some q => q | None => p_old end)
+                                 (match r_new with Some q => q | None => r_old end) w ->
+    validate F f0 is_psd (fst (model_replace F f0 is_psd repair p_old r_old p_new r_new))
+                         (snd (model_replace F f0 is_psd repair p_old r_old p_new r_new)) = true.
+Proof. exact model_replace_valid_lemma. Qed.
+
 (* covariance -> (correlation, standard deviations) -> covariance is the identity, entry by entry, for
    every real matrix with positive diagonal:
    calculate_cov_from_corrse(calculate_corr_from_cov(S), calculate_se_from_cov(S)) = S *)
@@ -257,6 +287,24 @@ Theorem sdcorr_inverse :
     fget R 0%R (corr2cov R 0%R Rplus Rmult (cov2corr R 0%R Rmult Rdiv sqrt ris0 S) (se_from_cov R 0%R sqrt S)) i j =
     fget R 0%R S i j.
 Proof. exact sdcorr_inverse_lemma. Qed.
+
+(* the same for parameters_sdcorr on a WHOLE collection whose blocks may share parameter symbols (one eta
+   block per occasion with the same omegas): the sd/corr numbers are computed from the untouched input
+   values, every symbol is written with one value w, and sd_i * corr_ij * sd_j read back from the result
+   is the input (co)variance of every joint block *)
+Theorem sdcorr_collection_inverse :
+  forall (p : params R) (r : coll id) (w : id -> R) ns l mu (V : list (list id)) (i j : nat),
+    (forall ns l mu V i j, In (Joint ns l mu V) r -> i < length V -> j < vcols V ->
+       fget R 0%R (sdcorr_block R 0%R Rmult Rdiv sqrt ris0 (msubs R 0%R p V)) i j = w (nth j (nth i V []) 1%positive)) ->
+    (forall n l m v, In (Normal n l m v) r -> sqrt (pget R 0%R p v) = w v) ->
+    In (Joint ns l mu V) r -> (forall row, In row V -> length row = length V) ->
+    (forall k, k < length V -> (0 < pget R 0%R p (nth k (nth k V []) 1%positive))%R) ->
+    i < length V -> j < length V ->
+    let p' := sdcorr_params R 0%R Rmult Rdiv sqrt ris0 p r in
+    let sd := fun k => pget R 0%R p' (nth k (nth k V []) 1%positive) in
+    (if Nat.eqb i j then (sd i * sd i)%R else (sd i * pget R 0%R p' (nth j (nth i V []) 1%positive) * sd j)%R) =
+    pget R 0%R p (nth j (nth i V []) 1%positive).
+Proof. exact sdcorr_collection_inverse_lemma. Qed.
 
 (* (correlation with unit diagonal, positive standard deviations) -> covariance -> back *)
 Theorem corr_inverse :
